@@ -453,7 +453,9 @@ pub fn run_positive(verif_dir: &str, seed: u64, n: usize, shards: usize) -> GenR
     let bindir = format!("{dir}/src/bin");
     let _ = std::fs::remove_dir_all(&bindir);
     std::fs::create_dir_all(&bindir).expect("create gencrate/src/bin");
-    std::fs::write(format!("{dir}/Cargo.toml"), GENCRATE_TOML).expect("write Cargo.toml");
+    // VERIF_REPO lets calibration runs point the generated crate at a scratch copy of the repository
+    let repo = std::env::var("VERIF_REPO").unwrap_or_else(|_| "/repo".into());
+    std::fs::write(format!("{dir}/Cargo.toml"), GENCRATE_TOML.replace("/repo/tarpc", &format!("{repo}/tarpc"))).expect("write Cargo.toml");
     let _ = std::fs::create_dir_all(format!("{dir}/.cargo"));
     let _ = std::fs::write(format!("{dir}/.cargo/config.toml"), "[net]\noffline = true\n");
     let _ = std::fs::copy("/repo/Cargo.lock", format!("{dir}/Cargo.lock"));
